@@ -247,8 +247,27 @@ def _desc(e):
     if e is None:
         return "END"
     if e[0] in "se":
-        return f"{e[0]}:{e[1]}"
+        t = e[1]
+        k = t if t in _CONT else ("h" if t in _LEAF and t[0] == "h" and len(t) == 2 else t if t in _LEAF else "hr" if t == "hr" else "inline")
+        return f"{e[0]}:{k}"
     return e[0]
+
+
+def canon(sig):
+    """Canonical (coarse) form of a divergence signature; also applied to signatures stored in baselines
+    that were recorded with tag names."""
+    parts = str(sig).split("|")
+    if len(parts) < 3:
+        return sig
+    out = [parts[0]]
+    for p_ in parts[1:3]:
+        if p_[:2] in ("s:", "e:"):
+            t = p_[2:]
+            k = t if t in _CONT else ("h" if (t in _LEAF and t[0] == "h" and len(t) == 2) or t == "h" else t if t in _LEAF else "hr" if t == "hr" else "inline")
+            out.append(p_[:2] + k)
+        else:
+            out.append(p_)
+    return "|".join(out + parts[3:])
 
 
 def compare(src, pm_html):
